@@ -15,14 +15,14 @@ theorem C09_bytesio_refines : IsFile PyFile.ops (fun _ => True) PyFile.abs := py
 
 /-- SubsectionIO over anything that behaves like a file behaves like a fixed-size file whose content is the window —
     for all integer read sizes, seek offsets, whence values and write lengths. -/
-theorem C09_sub_refines (hF : IsFile F inv abs) :
+theorem C09_sub_refines (hF : IsFileW F inv abs) :
     IsFile (Sub.ops F) (Sub.invSub inv abs) (Sub.absSub abs) := Sub.sub_isFile hF
 
 /-- closure under stacking: a window on a window on a BytesIO -/
 theorem C09_stack :
     IsFile (Sub.ops (Sub.ops PyFile.ops))
       (Sub.invSub (Sub.invSub (fun _ => True) PyFile.abs) (Sub.absSub PyFile.abs))
-      (Sub.absSub (Sub.absSub PyFile.abs)) := Sub.sub_isFile (Sub.sub_isFile pyfile_isFile)
+      (Sub.absSub (Sub.absSub PyFile.abs)) := Sub.sub_isFile (Sub.sub_isFile pyfile_isFile.toIsFileW).toIsFileW
 
 /-- every history: outputs equal those of the ordinary file, for any operation list -/
 theorem C09_history (hF : IsFile F inv abs) (ops : List Op) (s : σ) (h : inv s) :
@@ -35,7 +35,7 @@ theorem C09_read_frame (hF : IsReadable F inv abs) (s : Sub σ) (n : Int) (h : S
   obtain ⟨s', a, _, _, f⟩ := Sub.read_refines hF s n h; exact ⟨s', a, f⟩
 
 /-- … and neither does a write, whatever its length. -/
-theorem C09_write_frame (hF : IsFile F inv abs) (s : Sub σ) (w : Bytes) (h : Sub.invSub inv abs s) :
+theorem C09_write_frame (hF : IsFileW F inv abs) (s : Sub σ) (w : Bytes) (h : Sub.invSub inv abs s) :
     ∃ s', Sub.write F s w = .ok (((Sub.absSub abs s).write w).1, s') ∧ Sub.Frame abs s s' := by
   obtain ⟨s', a, _, _, f⟩ := Sub.write_refines hF s w h; exact ⟨s', a, f⟩
 
